@@ -18,7 +18,8 @@ RULE = (
     "every field size N = 1..400 (exhaustive in N) x Hypothesis-drawn flow rates and fluids: per-borehole mass flow == v/1000 "
     "x rho in both modes, system flow equal, m_k x N_k constant along a candidate list under SYSTEM flow. pairs: the same field "
     "evaluated through calculate_excess of a real search object once with (BOREHOLE, v) and once with (SYSTEM, N v), all pipe "
-    "types, surrogate long-time g (L2 seam): mass flow, R_b*, max/min EFT and every simulated temperature equal (1e-9 K). "
+    "types, surrogate long-time g (L2 seam), after a candidate of another size was evaluated on the same object: mass flow (also the "
+    "one handed to the g-function calculation, observed at the seam), R_b*, max/min EFT and every simulated temperature equal (1e-9 K). "
     "respec: on ONE manager the flow is specified twice -- (BOREHOLE, v), find_design -> N, then (SYSTEM, N v), find_design -- and "
     "the returned GHE must carry system flow / its borehole count as per-borehole flow and equal a fresh manager's design. "
     "Non-trivial = N >= 2; distinct by (class, pipe, fluid, N) for split and by case hash for pairs."
@@ -115,7 +116,32 @@ def check_pair(case, rec):
             m = gp.build_media(case["bhe"])
             sim = SimulationParameters(1, case["months"], 35.0, 5.0, max(h, 200.0), min(h, 60.0))
             ob = guarded(_make_search, case["cls"], m, flow, FlowConfigType[mode], sim, hourly, coords, what="search constructor")
-            exc = guarded(ob.calculate_excess, coords, h, what=f"calculate_excess({mode})")
+            # as in a search: another candidate (different borehole count) is evaluated first on the same object, and the
+            # arguments handed to the g-function calculation for OUR field are observed at the seam
+            import ghedesigner.search_routines as sr
+
+            other = build.grid(f["nx"] + 1, f["ny"] + (1 if f["nx"] % 2 else 0), f["B"])
+            guarded(ob.calculate_excess, other, h, what=f"calculate_excess({mode}, previous candidate)")
+            calls = []
+            inner = sr.calc_g_func_for_multiple_lengths
+
+            def spy(b_, h_values, r_b, depth, m_flow_borehole, *a, _inner=inner, _calls=calls, **k):
+                _calls.append(float(m_flow_borehole))
+                return _inner(b_, h_values, r_b, depth, m_flow_borehole, *a, **k)
+
+            sr.calc_g_func_for_multiple_lengths = spy
+            try:
+                exc = guarded(ob.calculate_excess, coords, h, what=f"calculate_excess({mode})")
+            finally:
+                sr.calc_g_func_for_multiple_lengths = inner
+            exp_m = v / 1000.0 * float(m["fluid"].rho)
+            if not calls:
+                raise Violation("calculate_excess computed no g-function for the candidate", sig={"kind": "no_g_call"})
+            for mm in calls:
+                if abs(mm - exp_m) > 1e-12 * exp_m:
+                    raise Violation(f"{case['cls']} {mode}: the g-function of the {n}-borehole candidate was computed with a per-borehole "
+                                    f"mass flow of {mm!r} kg/s, expected {exp_m!r} (previous candidate had {len(other)} boreholes)",
+                                    sig={"kind": "g_function_mass_flow", "mode": mode, "cls": case["cls"]})
             ghe = ob.ghe
             out[mode] = dict(m=float(ghe.bhe.m_flow_borehole), vs=float(ghe.V_flow_system),
                              rb=float(ghe.bhe.calc_effective_borehole_resistance()), eft=[float(x) for x in ghe.hp_eft],
